@@ -265,3 +265,138 @@ Print Assumptions wif_roundtrip_demo.
 Example lot_seq_demo : owner_entropy_lotseq 1048575 4095 [1; 2; 3; 4] = Ok [1; 2; 3; 4; 255; 255; 255; 255].
 Proof. vm_compute. reflexivity. Qed.
 Print Assumptions lot_seq_demo.
+
+(* ===== linked to the concrete codec models ===== *)
+(* BIP-38 with its two non-cryptographic parameters instantiated (Model/LinkAddr.v):
+     [p2pkh P mode] := P2PKHAddr.EncodeKey of the serialised point = Base58Check (Model/Base58.v) of
+                       net version || ripemd160(sha256(point bytes)) (Model/AddrB58.v), net version read from the
+                       Bip38Addr source (Gen/LinkConsts.v);
+     [utf8]         := the RFC 3629 encoder of Model/SubstrateScale.v (C19 [utf8_correct]).
+   Hypotheses that disappeared: none was stated on [p2pkh] (it was an arbitrary function), but the theorems now
+   speak about THE address; the premise [utf8 (nfc pass) = Ok pw] becomes "no lone surrogate in the normalised
+   passphrase" and the error clause "whatever utf8 raised" becomes UnicodeError.
+   Oracles that remain: sha256, ripemd160, NFC, scrypt, AES-256-ECB, the secp256k1 group with its compressed and
+   uncompressed point serialisation. *)
+From BU Require Import Gen.AddrConsts Gen.LinkConsts Model.AddrB58 Model.SubstrateScale Model.LinkAddr.
+From BU Require Lemmas.SubstrateScale Lemmas.LinkBip38.
+
+Section Linked.
+  Variables sha256 ripemd160 : list N -> list N.
+  Variable nfc : list N -> list N.
+  Variable scrypt : list N -> list N -> N -> N -> N -> N -> list N.
+  Variable aes_enc aes_dec : list N -> list N -> list N.
+  Variable G : Type.
+  Variable base : G.
+  Variable smul : N -> G -> G.
+  Variables ser_c ser_u : G -> list N.
+  Variable deser : list N -> option G.
+
+  Hypothesis sha_ok : sha_law sha256.
+  Hypothesis scrypt_len : forall pw salt n r p dk, length (scrypt pw salt n r p dk) = N.to_nat dk.
+  Hypothesis aes_dec_enc : forall k b, length b = 16%nat -> aes_dec k (aes_enc k b) = b.
+  Hypothesis aes_enc_len : forall k b, length b = 16%nat -> length (aes_enc k b) = 16%nat.
+  Hypothesis aes_enc_ok : forall k b, bytes_ok (aes_enc k b).
+
+  Notation scalar := Lemmas.SubstrateScale.scalar.      (* a code point that is not a surrogate *)
+  Notation ahash := (bip38c_address_hash sha256 ripemd160 G ser_c ser_u).
+  Notation encrypt := (bip38c_noec_encrypt sha256 ripemd160 nfc scrypt aes_enc G base smul ser_c ser_u).
+  Notation decrypt := (bip38c_noec_decrypt sha256 ripemd160 nfc scrypt aes_dec G base smul ser_c ser_u).
+
+  (* the address hash down to the hash functions *)
+  Theorem address_hash_concrete : forall P c,
+    ahash P c = firstn 4 (sha256 (sha256
+      (B58 check_encode sha256 (bip38_addr_net_ver ++ ripemd160 (sha256 (if c then ser_c P else ser_u P)))))).
+  Proof. exact (Lemmas.LinkBip38.address_hash_concrete sha256 ripemd160 G ser_c ser_u). Qed.
+
+  Theorem noec_layout_concrete : forall key pass c, secp_priv_valid key = true -> Forall scalar (nfc pass) ->
+    exists pw, utf8_encode (nfc pass) = Ok pw /\
+      let ah := ahash (smul (be_to_int key) base) c in
+      let K := scrypt pw ah 16384 8 8 64 in
+      let dh1 := firstn 32 K in let dh2 := skipn 32 K in
+      encrypt key pass c =
+        Ok (B58 check_encode sha256
+              ([1; 66] ++ [if c then 224 else 192] ++ ah ++
+               aes_enc dh2 (xor_bytes (firstn 16 key) (firstn 16 dh1)) ++
+               aes_enc dh2 (xor_bytes (skipn 16 key) (skipn 16 dh1)))).
+  Proof.
+    destruct sha_ok as [H1 H2].
+    exact (Lemmas.LinkBip38.noec_layout_c sha256 ripemd160 nfc scrypt aes_enc aes_dec G base smul ser_c ser_u
+             H1 H2 scrypt_len aes_dec_enc aes_enc_len aes_enc_ok).
+  Qed.
+
+  Theorem noec_decrypt_encrypt_concrete : forall key pass c,
+    secp_priv_valid key = true -> bytes_ok key -> Forall scalar (nfc pass) ->
+    exists s, encrypt key pass c = Ok s /\ decrypt s pass = Ok (key, c).
+  Proof.
+    destruct sha_ok as [H1 H2].
+    exact (Lemmas.LinkBip38.noec_decrypt_encrypt_c sha256 ripemd160 nfc scrypt aes_enc aes_dec G base smul ser_c ser_u
+             H1 H2 scrypt_len aes_dec_enc aes_enc_len aes_enc_ok).
+  Qed.
+
+  Theorem noec_wrong_input_iff_concrete : forall b pass pw, bytes_ok b -> length b = 39%nat ->
+    slice 0 2 b = [1; 66] -> (nth 2 b 0 = 224 \/ nth 2 b 0 = 192) -> utf8_encode (nfc pass) = Ok pw ->
+    let ah := slice 3 7 b in
+    let '(dh1, dh2) := Lemmas.Bip38.std_halves scrypt pw ah in
+    let key := xor_bytes (aes_dec dh2 (slice 7 23 b) ++ aes_dec dh2 (skipn 23 b)) dh1 in
+    let c := nth 2 b 0 =? 224 in
+    decrypt (B58 check_encode sha256 b) pass =
+      if secp_priv_valid key && list_eqb ah (ahash (smul (be_to_int key) base) c)
+      then Ok (key, c) else Err ValueError.
+  Proof.
+    destruct sha_ok as [H1 H2].
+    exact (Lemmas.LinkBip38.noec_wrong_input_iff_c sha256 ripemd160 nfc scrypt aes_enc aes_dec G base smul ser_c ser_u
+             H1 H2 scrypt_len aes_dec_enc aes_enc_len aes_enc_ok).
+  Qed.
+
+  Theorem noec_decrypt_errors_concrete : forall enc pass e, decrypt enc pass = Err e ->
+    e = ValueError \/ e = LibError Base58ChecksumError \/ (e = UnicodeError /\ ~ Forall scalar (nfc pass)).
+  Proof.
+    destruct sha_ok as [H1 H2].
+    exact (Lemmas.LinkBip38.noec_errors_c sha256 ripemd160 nfc scrypt aes_enc aes_dec G base smul ser_c ser_u
+             H1 H2 scrypt_len aes_dec_enc aes_enc_len aes_enc_ok).
+  Qed.
+
+  Hypothesis ser_c_len : forall P, length (ser_c P) = 33%nat.
+  Hypothesis ser_c_ok : forall P, bytes_ok (ser_c P).
+  Hypothesis deser_ser : forall P, deser (ser_c P) = Some P.
+  Hypothesis smul_smul : forall a b P, smul a (smul b P) = smul (a * b) P.
+  Hypothesis smul_mod_order : forall a, smul (a mod secp256k1_order) base = smul a base.
+
+  Notation generate := (bip38c_ec_generate sha256 ripemd160 nfc scrypt aes_enc G base smul ser_c ser_u deser).
+  Notation ec_dec := (bip38c_ec_decrypt sha256 ripemd160 nfc scrypt aes_dec G base smul ser_c ser_u).
+
+  Theorem ec_decrypt_generate_concrete : forall pass c ls salt seedb oe pfb,
+    Lemmas.Bip38.owner_entropy_of ls salt = Ok oe -> length oe = 8%nat -> bytes_ok oe ->
+    pass_factor sha256 nfc utf8_encode scrypt pass oe (Lemmas.Bip38.has_ls ls) = Ok pfb ->
+    length seedb = 24%nat ->
+    let pf := be_to_int pfb in
+    let fb := be_to_int (sha256 (sha256 seedb)) in
+    0 < pf < secp256k1_order -> 0 < fb < secp256k1_order -> (pf * fb) mod secp256k1_order <> 0 ->
+    exists enc key, generate pass c ls salt seedb = Ok enc /\ ec_dec enc pass = Ok (key, c) /\
+                    length key = 32%nat /\ be_to_int key = (pf * fb) mod secp256k1_order /\
+                    secp_priv_valid key = true.
+  Proof.
+    destruct sha_ok as [H1 H2].
+    exact (Lemmas.LinkBip38.ec_decrypt_generate_c sha256 ripemd160 nfc scrypt aes_enc aes_dec G base smul ser_c ser_u deser
+             H1 H2 scrypt_len aes_dec_enc aes_enc_len aes_enc_ok ser_c_len ser_c_ok deser_ser smul_smul smul_mod_order).
+  Qed.
+
+  (* what the embedded address hash commits to: the address decodes (library's own P2PKH decoder) to the
+     hash160 of the key serialised in the flagged mode *)
+  Hypothesis rip_len : forall x, length (ripemd160 x) = 20%nat.
+  Hypothesis rip_ok : forall x, bytes_ok (ripemd160 x).
+  Theorem bip38_address_decodes : forall P c,
+    p2pkh_decode sha256 b58_alph_btc bip38_addr_net_ver (bip38_p2pkh sha256 ripemd160 G ser_c ser_u P c) =
+      Ok (ripemd160 (sha256 (if c then ser_c P else ser_u P))).
+  Proof.
+    destruct sha_ok as [H1 H2].
+    exact (Lemmas.LinkBip38.bip38_address_decodes sha256 ripemd160 G ser_c ser_u H1 H2 rip_len rip_ok).
+  Qed.
+End Linked.
+Print Assumptions address_hash_concrete.
+Print Assumptions noec_layout_concrete.
+Print Assumptions noec_decrypt_encrypt_concrete.
+Print Assumptions noec_wrong_input_iff_concrete.
+Print Assumptions noec_decrypt_errors_concrete.
+Print Assumptions ec_decrypt_generate_concrete.
+Print Assumptions bip38_address_decodes.
